@@ -43,6 +43,9 @@ pub enum Fault {
     StopSending(u64),
     Close(u64),
     Timeout,
+    /// no fault: the bytes up to the offset are delivered and READ before the rest is written (a transport
+    /// chunk boundary at exactly this offset)
+    Cut,
 }
 
 #[derive(Clone, Debug)]
@@ -220,6 +223,21 @@ pub fn execute(case: &Case, seed: u64) -> Outcome {
                 }
                 Some(Fault::Close(c)) => net.raw_close(peer, c),
                 Some(Fault::Timeout) => net.inject_conn_err(me, ConnErr::Timeout),
+                Some(Fault::Cut) => {
+                    // wait until the reader has taken everything written so far
+                    let mut spins = 0;
+                    loop {
+                        let drained = {
+                            let mut g = net.lock();
+                            g.streams.get_mut(&target).and_then(|s| s.pipe_w(peer).map(|p| p.delivered == p.written.len())).unwrap_or(true)
+                        };
+                        if drained || spins > 200 {
+                            break;
+                        }
+                        spins += 1;
+                        yield_now().await;
+                    }
+                }
                 None => {}
             }
             yield_now().await;
@@ -344,6 +362,7 @@ fn case_json(c: &Case, seed: u64) -> Value {
             Some((Fault::StopSending(x), k)) => json!(["stop", x, k]),
             Some((Fault::Close(x), k)) => json!(["close", x, k]),
             Some((Fault::Timeout, k)) => json!(["timeout", 0, k]),
+            Some((Fault::Cut, k)) => json!(["cut", 0, k]),
         },
         "seed": seed,
     })
@@ -376,6 +395,7 @@ fn case_from_json(v: &Value) -> Case {
                         "reset" => Fault::Reset(code),
                         "stop" => Fault::StopSending(code),
                         "close" => Fault::Close(code),
+                        "cut" => Fault::Cut,
                         _ => Fault::Timeout,
                     },
                     k,
@@ -387,7 +407,7 @@ fn case_from_json(v: &Value) -> Case {
 
 fn grammar_strings(thorough: bool) -> Vec<(StreamKind, Endpoint, Vec<u8>)> {
     let mut out = Vec::new();
-    let n = if thorough { 3 } else { 2 };
+    let n = if thorough { 4 } else { 3 };
     for (role, me) in [(Role::ServerRecv, Endpoint::Server), (Role::ClientRecv, Endpoint::Client)] {
         let alpha = crate::c03::alphabet(role);
         let mut frontier: Vec<Vec<usize>> = vec![vec![]];
@@ -519,9 +539,9 @@ pub fn run(args: &Args) -> i32 {
     rep.exhaustive = true;
     let l = if thorough { 3 } else { 2 };
     rep.rule = format!(
-        "(a) every byte string of length <= {l} on each of 8 stream kinds (request, control after SETTINGS, control as first bytes, QPACK encoder, QPACK decoder, push, WebTransport uni, unknown) x role x delivery (whole, one byte per read) x (FIN, left open){}; (b) grammar strings (request-stream sequences of <= {} frames over the C03 alphabet, control-stream sequences over the C04 alphabet, malformed/invalid field sections, WebTransport signal) x one fault of {{FIN, RESET, STOP_SENDING, connection close, transport timeout}} injected at EVERY byte offset x delivery (whole, per byte). (c) size extremes: field sections with N field lines for N around http::HeaderMap's capacity limits (24576/24577, 32768/32769; duplicates of one line and distinct names; as head and as trailers) and frames of every kind with declared lengths 2^32-1, 2^32, 2^62-1. Real server / client run the documented call pattern including the sending half. Oracle: no panic in any poll (overflow checks + debug assertions on); at quiescence no call is pending on a finished/reset stream or a dead connection. states = distinct final (transport, observation) fingerprints; non-trivial = cases with a fault or >= 2 bytes.",
+        "(a) every byte string of length <= {l} on each of 8 stream kinds (request, control after SETTINGS, control as first bytes, QPACK encoder, QPACK decoder, push, WebTransport uni, unknown) x role x delivery (whole, one byte per read) x (FIN, left open){}; (b) grammar strings (request-stream sequences of <= {} frames over the C03 alphabet, control-stream sequences over the C04 alphabet, malformed/invalid field sections, WebTransport signal) x one fault of {{FIN, RESET, STOP_SENDING, connection close, transport timeout, or no fault but a transport chunk boundary (bytes read before the rest is written)}} injected at EVERY byte offset x delivery (whole, per byte). (c) size extremes: field sections with N field lines for N around http::HeaderMap's capacity limits (24576/24577, 32768/32769; duplicates of one line and distinct names; as head and as trailers) and frames of every kind with declared lengths 2^32-1, 2^32, 2^62-1. (d) string literals announcing 2^31 ... 2^64-1 bytes with two bytes present (name and value position, plain and Huffman), each executed in a child process so that an aborting allocation is an observation. Real server / client run the documented call pattern including the sending half. Oracle: no panic in any poll (overflow checks + debug assertions on); at quiescence no call is pending on a finished/reset stream or a dead connection. states = distinct final (transport, observation) fingerprints; non-trivial = cases with a fault or >= 2 bytes.",
         if thorough { " (length 3: request and control kinds)" } else { "" },
-        if thorough { 3 } else { 2 }
+        if thorough { 4 } else { 3 }
     );
     rep.assumptions = vec![
         "zero-length chunks from the transport are outside the RecvStream contract and not produced".into(),
@@ -571,7 +591,7 @@ pub fn run(args: &Args) -> i32 {
         }
     }
     // (b)
-    let faults = [Fault::Fin, Fault::Reset(0x10c), Fault::StopSending(0x10c), Fault::Close(0x101), Fault::Close(0x100), Fault::Timeout];
+    let faults = [Fault::Fin, Fault::Reset(0x10c), Fault::StopSending(0x10c), Fault::Close(0x101), Fault::Close(0x100), Fault::Timeout, Fault::Cut];
     for (kind, me, bytes) in grammar_strings(thorough) {
         for per_byte in [false, true] {
             cases.push(Case { me, kind, bytes: bytes.clone(), per_byte, fault: None, fin: true });
@@ -591,7 +611,56 @@ pub fn run(args: &Args) -> i32 {
             cases.push(Case { me, kind, bytes: bytes.clone(), per_byte: false, fault: None, fin });
         }
     }
+    // (d) string literals whose ANNOUNCED length is huge while only a few bytes are present. A decoder that sizes
+    // a buffer from the announced length panics ("capacity overflow") or makes the allocator abort the process;
+    // an abort cannot be caught in-process, so each of these cases runs in a child process.
+    let mut isolated: Vec<Case> = Vec::new();
+    for (me, head) in [(Endpoint::Server, REQ_SECTION), (Endpoint::Client, RESP_SECTION)] {
+        for l in [1u64 << 31, 1 << 32, 1 << 36, 1 << 40, 1 << 47, 1 << 61, 1 << 62, 1 << 63, u64::MAX] {
+            for huffman in [false, true] {
+                // value of a literal with static name reference; name of a literal with literal name
+                let mut a = head.to_vec();
+                a.push(0x51);
+                a.extend(refimpl::qint::encode(7, huffman as u8, l));
+                a.extend_from_slice(b"xy");
+                let mut b = head.to_vec();
+                b.extend(refimpl::qint::encode(3, 0x4 | huffman as u8, l));
+                b.extend_from_slice(b"xy");
+                for sec in [a, b] {
+                    let mut bytes = refimpl::varint::encode(rf::HEADERS).unwrap();
+                    bytes.extend(refimpl::varint::encode(sec.len() as u64).unwrap());
+                    bytes.extend(sec);
+                    isolated.push(Case { me, kind: StreamKind::Request, bytes, per_byte: false, fault: None, fin: true });
+                }
+            }
+        }
+    }
     let seed = args.seed;
+    let iso_accs = explore::par::run(&isolated, Acc::new, |_, case, acc| {
+        acc.evaluations += 1;
+        let role = if case.me == Endpoint::Server { "server" } else { "client" };
+        match crate::common::run_isolated("C06", &case_json(case, seed)) {
+            crate::common::Isolated::NoViolation => {}
+            crate::common::Isolated::Violations(v) => {
+                for (sig, msg) in v {
+                    acc.violation(sig, msg, (0, case.bytes.len()), || case_json(case, seed));
+                }
+            }
+            crate::common::Isolated::Aborted(sigl) => acc.violation(
+                format!("C06:{role}:process-aborted:{:?}", case.kind),
+                format!("{}: the process was killed ({sigl}) - e.g. an allocation sized by a length the peer announced", ctx(case)),
+                (0, case.bytes.len()),
+                || case_json(case, seed),
+            ),
+            crate::common::Isolated::TimedOut => acc.violation(
+                format!("C06:{role}:stuck:isolated-case-does-not-return"),
+                format!("{}: the child process did not finish within 120 s", ctx(case)),
+                (0, case.bytes.len()),
+                || case_json(case, seed),
+            ),
+            crate::common::Isolated::Machinery(e) => explore::machinery_failure(&format!("isolated run failed: {e}")),
+        }
+    });
     let chunks: Vec<&[Case]> = cases.chunks(512).collect();
     let accs = explore::par::run(&chunks, Acc::new, |_, chunk, acc| {
         for case in *chunk {
@@ -617,6 +686,10 @@ pub fn run(args: &Args) -> i32 {
     for a in accs {
         total.merge(a);
     }
+    for a in iso_accs {
+        total.merge(a);
+    }
+    total.count("isolated_huge_announced_length_cases", isolated.len() as u64);
     total.count("cases", cases.len() as u64);
     total.count("size_extreme_inputs", n_extremes as u64);
     for i in [cases.len() / 7, cases.len() - 300, cases.len() - 1] {
